@@ -117,7 +117,7 @@ class TriangularMesh(BaseMagnet):
     """
 
     _field_func = staticmethod(BHJM_magnet_trimesh)
-    _field_func_kwargs_ndim = {"polarization": 2, "mesh": 3}
+    _field_func_kwargs_ndim = {"polarization": 2, "mesh": 4}
     get_trace = make_TriangularMesh
     _style_class = TriangularMeshStyle
 
